@@ -2,6 +2,7 @@ package bits
 
 import (
 	"encoding/binary"
+	"errors"
 	"fmt"
 	"regexp"
 	"strings"
@@ -29,6 +30,26 @@ func NewBitArray(bits int) *BitArray {
 		Bits:  bits,
 		Elems: make([]uint64, (bits+63)/64),
 	}
+}
+
+// ValidateBasic checks that the bit array is well formed: a non-negative
+// number of bits and exactly as many elements as that number of bits needs.
+// A BitArray taken from the wire (see FromProto) carries both values
+// independently, and every method of BitArray indexes Elems relying on Bits.
+func (bA *BitArray) ValidateBasic() error {
+	if bA == nil {
+		return nil
+	}
+	bA.mtx.Lock()
+	defer bA.mtx.Unlock()
+	if bA.Bits < 0 {
+		return errors.New("negative Bits")
+	}
+	if expected := (bA.Bits + 63) / 64; len(bA.Elems) != expected {
+		return fmt.Errorf("mismatch between number of bits %d and number of elements %d (expected %d)",
+			bA.Bits, len(bA.Elems), expected)
+	}
+	return nil
 }
 
 // Size returns the number of bits in the bitarray
